@@ -324,6 +324,14 @@ def run(ctx):
             (cli if rng.random() < 0.5 else user)["brokerid"] = rng.choice(["broker.example", "B"])
         mk_case(kind, cli, user, label="configured")
 
+    # as-of date with every combination of the include flags (the as-of date must reach INCPOS whatever the flags)
+    for flags in itertools.product((True, False), repeat=4):
+        cli = {"request": "stmt", "server": "srv", "url": "https://bank.example/ofx", "dryrun": True,
+               "brokerid": "B", "bankid": "1", "investment": ["I1", "I2"], "checking": ["C1"],
+               "dtasof": "20200301", "dtstart": "20200101", "dtend": "20200201"}
+        cli.update(dict(zip(("inctran", "incbal", "incpos", "incoo"), flags)))
+        mk_case("stmt", cli, {}, label="asof-flags")
+
     # small-scope exhaustive: ids per type from {[], [a], [a,b], [a,a]} for every type (stmt), thorough only
     if ctx.thorough:
         shapes = [[], ["a"], ["a", "b"], ["a", "a"]]
@@ -374,7 +382,8 @@ def run(ctx):
         fail, code = None, 0
         if rng.random() < 0.03:
             code = 2000
-        mk_case(kind, cli, user, infos=infos, grouped=rng.random() < 0.5, code=code, label="all")
+        mk_case(kind, cli, user, infos=infos, grouped=rng.random() < 0.5, code=code,
+                label="all-merged" if rng.random() < 0.35 else "all")
 
     if ctx.thorough:
         # all multisets of <= 3 accounts per class over {type} x {status}, one bank id / broker id
@@ -399,6 +408,25 @@ def run(ctx):
     for c in cases:
         kind = c["kind"]
         args = collections.ChainMap(dict(c["cli"]), dict(c["user"]), dict(DEFAULTS))
+        if c["label"] == "all-merged":
+            # the real three-layer ChainMap: command line, ofxget.cfg section read by read_config, DEFAULTS
+            def raw(v):
+                if isinstance(v, bool):
+                    return "true" if v else "false"
+                if isinstance(v, list):
+                    return ", ".join(v)
+                return str(v)
+            usec = [[k, raw(v)] for k, v in c["user"].items()
+                    if not (isinstance(v, list) and any(("," in m) or m != m.strip() or not m for m in v))]
+            c["user"] = {k: v for k, v in c["user"].items() if any(k == kk for kk, _ in usec)}
+            env.oh_table = {}
+            env.fresh_process([], [["srv", usec]], "TRNUID")
+            import argparse as _ap
+            with quiet():
+                mr = run_impl_all(og.merge_config, _ap.Namespace(**c["cli"]), og.USERCFG)
+            if mr[0] == "ok":
+                args = mr[1]
+                c["cli"], c["user"] = dict(args.maps[0]), dict(args.maps[1])
         rec = Rec()
         resp = None
         if c["infos"] is not None:
@@ -538,6 +566,19 @@ def run(ctx):
                     act.append(("inv", x[2]))
             spec_lines.append(line("spec.active", Atom(kind), [pinfo(i) for i in infos]))
             spec_for.append((case, act, None))
+            for ty in ALLTYPES:
+                if ty in c["cli"] and isinstance(c["cli"][ty], list) and not (kind == "stmtend" and ty == "investment"):
+                    want_ids = list(c["cli"][ty])
+                    if ty in BANKTYPES:
+                        got_ids = [t[1] for t in tuples if t[0] in ("stmt", "stmtend") and t[2] == ty.upper()]
+                    elif ty == "creditcard":
+                        got_ids = [t[1] for t in tuples if t[0] in ("ccstmt", "ccstmtend")]
+                    else:
+                        got_ids = [t[1] for t in tuples if t[0] == "invstmt"]
+                    if got_ids != want_ids:
+                        ctx.violate("all_cli_accounts_not_used", case,
+                                    f"--all with --{ty} {want_ids} on the command line requested {got_ids} for that type "
+                                    f"(the command line outranks the discovered accounts)", {"type": ty})
             if not cli_names and one_bankid and one_broker and c["code"] == 0:
                 want = collections.Counter(act)
                 if got != want:
